@@ -12,6 +12,8 @@ import (
 	"net/http/httptest"
 	"os"
 	"strings"
+	"sync/atomic"
+	"syscall"
 	"time"
 
 	"github.com/buzzfeed/sso/internal/pkg/aead"
@@ -29,8 +31,56 @@ const U = 1000 * time.Second
 // TTL returns the configured duration for k model units.
 func TTL(k int) time.Duration { return time.Duration(k)*U + U/2 }
 
+// envTrouble counts log lines of the services under test that can only come from a degraded test
+// environment (the fake neighbours are always up, so a failed dial / exhausted descriptors are never
+// part of a scripted fault). A run with such lines is reported as a machinery failure, never as a verdict.
+var envTrouble int64
+var envSample atomic.Value
+
+type logScan struct{}
+
+func (logScan) Write(p []byte) (int, error) {
+	s := string(p)
+	if strings.Contains(s, "dial tcp") || strings.Contains(s, "too many open files") || strings.Contains(s, "cannot assign requested address") ||
+		strings.Contains(s, "Client.Timeout exceeded") || strings.Contains(s, "i/o timeout") {
+		if atomic.AddInt64(&envTrouble, 1) == 1 {
+			if len(s) > 400 {
+				s = s[:400]
+			}
+			envSample.Store(s)
+		}
+	}
+	return len(p), nil
+}
+
+// EnvTrouble reports how many such lines were seen and the first of them.
+func EnvTrouble() (int64, string) {
+	n := atomic.LoadInt64(&envTrouble)
+	s, _ := envSample.Load().(string)
+	return n, s
+}
+
 func init() {
-	logrus.SetOutput(ioutil.Discard)
+	logrus.SetOutput(logScan{})
+	// both ends of every connection live in this process: take all the descriptors we may
+	var lim syscall.Rlimit
+	if syscall.Getrlimit(syscall.RLIMIT_NOFILE, &lim) == nil && lim.Cur < lim.Max {
+		lim.Cur = lim.Max
+		syscall.Setrlimit(syscall.RLIMIT_NOFILE, &lim)
+	}
+	syscall.Getrlimit(syscall.RLIMIT_NOFILE, &lim)
+	// descriptor watermark: dials start to fail near the limit, and not every failed dial is logged with its cause
+	go func() {
+		for {
+			time.Sleep(100 * time.Millisecond)
+			ents, err := os.ReadDir("/proc/self/fd")
+			if err == nil && lim.Cur > 0 && uint64(len(ents))*10 > lim.Cur*8 {
+				if atomic.AddInt64(&envTrouble, 1) == 1 {
+					envSample.Store(fmt.Sprintf("descriptor usage %d of %d", len(ents), lim.Cur))
+				}
+			}
+		}
+	}()
 }
 
 // ProxyOpts configures a real sso-proxy.
